@@ -127,3 +127,12 @@ func Acc(site string, addr any, name string, write bool) {
 func (r Race) String() string {
 	return fmt.Sprintf("%s race on %s: %s vs %s", r.Kind, r.Loc, r.SiteA, r.SiteB)
 }
+
+// AccMap records an access to a map as a whole (reads: lookups, len, iteration; writes: stores, delete, clear).
+func AccMap(site string, m any, name string, write bool) {
+	e := E
+	if e == nil || !e.cfg.Race || e.poisoned || e.cur == nil {
+		return
+	}
+	Acc(site, m, name, write)
+}
